@@ -2085,6 +2085,18 @@ func ruleTabRegex(c *Ctx) {
 				continue
 			}
 		}
+		if rx.name == "noteRegex" {
+			if problem, n, ok := c.parseNoteByFolding(); ok {
+				pos := token.NoPos
+				if fn := c.fn("note", "ParseNote"); fn != nil {
+					pos = fn.Pos()
+				}
+				c.check(problem == "", key+"|anchored", c.pos(pos), "", fmt.Sprintf("decided by folding ParseNote on %d spellings: nothing is accepted around the spelling", n), "note.ParseNote: "+problem)
+				c.site(1)
+				c.check(problem == "", key, c.pos(pos), "", fmt.Sprintf("decided by folding ParseNote on %d spellings: exactly what the printers produce is read", n), "note.ParseNote: "+problem)
+				continue
+			}
+		}
 		pat, pos, ok := c.regexPattern(rx.pkg, rx.name)
 		if !ok {
 			c.undec(key, c.pos(pos), "", "pattern is not a constant passed to regexp.MustCompile")
